@@ -14,6 +14,7 @@
  * and every created task was marked as startup and handed to the scheduler exactly once.
  */
 #define VP_PTG_STUB_MEMPOOL
+#define VP_PTG_STUB_RING
 #include "vp_harness.h"
 #include "vp_ptg_pre.h"
 #include VP_STR(JDF.c)
@@ -48,46 +49,51 @@ static parsec_context_t the_ctx;
 static parsec_vp_t the_vp;
 static parsec_execution_stream_t the_es;
 static parsec_thread_mempool_t the_mp;
+static parsec_taskpool_t *gen_taskpool;
 
-/* tasks handed out by the allocation stub: separate static objects selected by an if-chain
- * (never an array of structs indexed by a symbolic counter) */
-static TASK_T pt0, pt1, pt2, pt3, pt4, pt5, pt6, pt7, pt8, pt9, pt10, pt11, pt12, pt13, pt14, pt15, pt_over;
-_Static_assert(MAXT <= 16, "MAXT");
-static int n_alloc, n_marked, n_sched, n_sched_calls, overflow;
-static int sched_par[MAXT + 1][3];
+/* The allocation stub hands out ONE static task object (the mempool is C27's unit; identity of
+ * the created task objects is not observed).  What is observed is the parameter tuple of the
+ * task at the moment the generated code pushes it on the ready ring (stub of the inline
+ * parsec_list_item_ring_push_sorted, C31's unit): pend_* = tasks on the ring not yet handed to
+ * the scheduler, sched_* = tasks handed to __parsec_schedule_vp. */
+static TASK_T the_new_task;
+static int n_alloc, n_marked, n_pend, n_sched, n_sched_calls, n_push_unmarked;
+/* the SYMBOLIC instance s is drawn before the run; the stubs count the created tasks whose
+ * parameters equal s (no arrays, no symbolic indices) */
+static int sym_s[3], s_pend, s_sched;
 
 static void *vp_task_alloc(parsec_thread_mempool_t *mp)
 {
     VASSERTM(mp == &the_mp, "startup allocates from the context mempool of the chosen vp");
-    int k = n_alloc;
-    if (k >= MAXT) { overflow = 1; return &pt_over; }
-    n_alloc = k + 1;
-    if (k == 0) return &pt0; if (k == 1) return &pt1; if (k == 2) return &pt2; if (k == 3) return &pt3;
-    if (k == 4) return &pt4; if (k == 5) return &pt5; if (k == 6) return &pt6; if (k == 7) return &pt7;
-    if (k == 8) return &pt8; if (k == 9) return &pt9; if (k == 10) return &pt10; if (k == 11) return &pt11;
-    if (k == 12) return &pt12; if (k == 13) return &pt13; if (k == 14) return &pt14;
-    return &pt15;
+    n_alloc++;
+    return &the_new_task;
 }
 void parsec_dependencies_mark_task_as_startup(parsec_task_t *task, parsec_execution_stream_t *es)
-{ (void)task; (void)es; n_marked++; }
+{ (void)es; VASSERTM(task == (parsec_task_t *)&the_new_task, "the new task is the one marked as startup"); n_marked++; }
+
+static parsec_list_item_t *vp_ring_push_sorted(parsec_list_item_t *ring, parsec_list_item_t *item, size_t off)
+{
+    const parsec_task_t *t = (const parsec_task_t *)item;
+    (void)off;
+    VASSERTM((ring == NULL) == (n_pend == 0), "the ready ring is empty exactly when nothing is pending");
+    VASSERTM(t->task_class == ref_tc[CID] && t->taskpool == gen_taskpool, "new task carries its task class and taskpool");
+    if (n_marked != n_alloc) n_push_unmarked++;
+    int eq = 1;
+    for (int k = 0; k < NP; k++)
+        if (t->locals[ref_tc[CID]->params[k]->context_index].value != sym_s[k]) eq = 0;
+    s_pend += eq;
+    n_pend++;
+    return item;
+}
 
 int __parsec_schedule_vp(parsec_execution_stream_t *es, parsec_task_t **task_rings, int32_t distance)
 {
     (void)es; (void)distance;
     n_sched_calls++;
-    parsec_list_item_t *first = (parsec_list_item_t *)task_rings[0], *it = first;
+    if (NULL == task_rings[0]) { VASSERTM(n_pend == 0, "a NULL ring has no pending task"); return 0; }
     task_rings[0] = NULL;      /* contract of __parsec_schedule_vp: the rings are consumed */
-    if (NULL == first) return 0;
-    for (int i = 0; i <= MAXT; i++) {
-        const parsec_task_t *t = (const parsec_task_t *)it;
-        if (n_sched < MAXT) {
-            for (int k = 0; k < NP; k++)
-                sched_par[n_sched][k] = t->locals[t->task_class->params[k]->context_index].value;
-            n_sched++;
-        } else overflow = 1;
-        it = (parsec_list_item_t *)it->list_next;
-        if (it == first) break;
-    }
+    n_sched += n_pend; s_sched += s_pend;
+    n_pend = 0; s_pend = 0;
     return 0;
 }
 
@@ -104,11 +110,17 @@ static int ref_is_startup(const int *g, const int *p)
 
 static int n_again, n_multi, n_created_total;
 
+static void draw_s(void)
+{
+    for (int i = 0; i < NP; i++) sym_s[i] = IN_RANGE(REF_PLO - 2, REF_PHI + 2);
+    s_pend = s_sched = 0;
+}
+
 static void one(int v)
 {
     const int *g = vals[v];
     REF_TP_T *tp = &tps[v];
-    n_alloc = n_marked = n_sched = n_sched_calls = 0;
+    n_alloc = n_marked = n_pend = n_sched = n_sched_calls = n_push_unmarked = 0; gen_taskpool = (parsec_taskpool_t *)tp;
     vp_dc_init(&dcs[v]);
     dcs[v].myrank = MYRANK;
     ref_set_globals(tp, g, &dcs[v]);
@@ -120,6 +132,7 @@ static void one(int v)
 
     size_t it = (size_t)IN_RANGE(1, 4), ch = (size_t)IN_RANGE(0, 4);
     parsec_task_startup_iter = it; parsec_task_startup_chunk = ch;
+    draw_s();
 
     int rc = PARSEC_HOOK_RETURN_AGAIN, calls = 0;
     for (int c = 0; c < MAXCALLS && rc == PARSEC_HOOK_RETURN_AGAIN; c++) {
@@ -127,32 +140,35 @@ static void one(int v)
         calls++;
     }
     VASSERTM(rc == PARSEC_HOOK_RETURN_DONE, "startup terminates (DONE) within #tasks+2 re-entries");
-    VASSERTM(!overflow, "startup creates no more tasks than the reference bound");
-    VASSERTM(n_sched == n_alloc && n_marked == n_alloc, "every created task is marked as startup and scheduled exactly once");
+    VASSERTM(n_alloc <= MAXT, "startup creates no more tasks than the reference bound");
+    VASSERTM(n_sched == n_alloc && n_marked == n_alloc && n_pend == 0 && n_push_unmarked == 0,
+             "every created task is marked as startup, pushed once and handed to the scheduler before DONE");
     if (calls >= 2) n_again++;
     if (n_alloc >= 2) n_multi++;
     n_created_total += n_alloc;
-    /* symbolic instance */
-    int s[3] = { 0, 0, 0 }, cnt = 0;
-    for (int i = 0; i < NP; i++) s[i] = IN_RANGE(REF_PLO - 2, REF_PHI + 2);
-    for (int k = 0; k < MAXT; k++) {
-        if (k >= n_sched) break;
-        int eq = 1;
-        for (int i = 0; i < NP; i++) if (sched_par[k][i] != s[i]) eq = 0;
-        cnt += eq;
-    }
-    VASSERTM(cnt == (ref_is_startup(g, s) ? 1 : 0), "an instance is created by startup exactly once iff it is a local startup instance");
+    VASSERTM(s_sched == (ref_is_startup(g, sym_s) ? 1 : 0), "an instance is created by startup exactly once iff it is a local startup instance");
 }
 
 int main(void)
 {
+#if defined(KF_EXCLUDE_C01_DESCENDING_RANGE)
+    /* Known finding C01-descending-range (FINDING.md): the startup enumeration of a class
+     * with a negative-step range is wrong for EVERY valuation, so the failing class is this whole
+     * query; nothing is left to check here (KF_ONLY runs the full harness and must fail). */
+    VWITNESS("query excluded: class with a negative-step parameter range (known finding)");
+    return 0;
+#endif
     the_ctx.nb_vp = 1; the_ctx.my_rank = MYRANK; the_ctx.virtual_processes[0] = &the_vp;
     the_vp.parsec_context = &the_ctx; the_vp.execution_streams[0] = &the_es;
     the_es.virtual_process = &the_vp; the_es.context_mempool = &the_mp;
     for (int c = 0; c < REF_NCLS; c++) tcs[c] = ref_tc[c];
     for (int v = 0; v < NVAL; v++) one(v);
 #ifdef WITNESS
+#ifdef REMOTE_VIEW
+    VWITNESS("startup ran to DONE on a rank that owns only part of the space");
+#else
     if (n_created_total >= 1) VWITNESS("startup created at least one task");
+#endif
 #ifndef NO_MULTI
     if (n_again >= 1 && n_multi >= 1) VWITNESS("a run with several startup tasks went through a PARSEC_HOOK_RETURN_AGAIN re-entry");
 #endif
